@@ -21,7 +21,16 @@
            | D<i>!<assoc|->!<vlrs|~>!<evlrs|~>!<format|~>!<x records|~>     one in-place operation on las_i: fields set, lists /
                                         format value / records it leaves (~ = untouched)
            | W<i>                       las_i.write()
-     -> one token per W: ok:x<file> | err:<E>      (- when there is none) *)
+     -> one token per W: ok:x<file> | err:<E>      (- when there is none)
+
+   pair <gh> <hex edims|-> <others vlrs|-> <T|F> <gr> <rex edims|-> <record size> <x records>
+        round 5 (Model/Pairing.v on Model/ExtraDims.v): a header of point format gh whose PointFormat carries the extra dimensions
+        hex, built with the other VLRs `others` and the extra-bytes VLR after (T) or before (F) them, paired with a record of
+        format (gr, rex) whose memory is <x records>; written and read back.
+        edim = <xname>~s<id>|o<n>~-|<s0,s1,..>/<o0,o1,..>~<xdesc>   joined by +   (the syntax of the C13 driver)
+     -> refused by-name=<T|F>
+      | err:<E>
+      | ok <vlrs as written> <edims read back> <x record bytes read back> <xname>:<x values>,...|-   *)
 open Model
 
 let rec pos_of_int n = if n = 1 then XH else if n land 1 = 0 then XO (pos_of_int (n lsr 1)) else XI (pos_of_int (n lsr 1))
@@ -113,6 +122,23 @@ let tok_of_fdesc d = String.concat ":" [string_of_z d.fd_id; string_of_z d.fd_si
 let rest t = String.sub t 1 (String.length t - 1)
 let rec nth_opt l n = match l, n with [], _ -> None | x :: _, 0 -> Some x | _ :: r, n -> nth_opt r (n - 1)
 
+(* ---------- Pairing glue (edim syntax copied from ocaml/c13/driver.ml) ---------- *)
+let etype_of_tok t =
+  let v = z_of_string (String.sub t 1 (String.length t - 1)) in
+  if t.[0] = 's' then TStd v else TOpaque v
+let tok_of_etype = function TStd i -> "s" ^ string_of_z i | TOpaque n -> "o" ^ string_of_z n
+let scale_of_tok t = if t = "-" then None else
+  match String.split_on_char '/' t with
+  | [s; o] -> Some (zlist_of_tok s, zlist_of_tok o)
+  | _ -> failwith ("bad scale " ^ t)
+let tok_of_scale = function None -> "-" | Some (s, o) -> tok_of_zlist s ^ "/" ^ tok_of_zlist o
+let edim_of_tok t = match String.split_on_char '~' t with
+  | [n; ty; sc; d] -> { ed_name = bytes_of_tok n; ed_type = etype_of_tok ty; ed_scale = scale_of_tok sc; ed_desc = bytes_of_tok d }
+  | _ -> failwith ("bad edim " ^ t)
+let tok_of_edim d = String.concat "~" [tok_of_bytes d.ed_name; tok_of_etype d.ed_type; tok_of_scale d.ed_scale; tok_of_bytes d.ed_desc]
+let tok_of_edims l = if l = [] then "-" else String.concat "+" (List.map tok_of_edim l)
+let edims_of_tok t = List.map edim_of_tok (split_on '+' t)
+
 let dispatch cmd a =
   let zi i = z_of_string a.(i) in
   match cmd with
@@ -181,6 +207,27 @@ let dispatch cmd a =
       | _ -> failwith ("bad op " ^ t) in
     let (_, outs) = List.fold_left step (w0, []) (Array.to_list (Array.sub a 5 (Array.length a - 5))) in
     if outs = [] then "-" else String.concat " " outs
+  | "pair" ->
+    let gh = zi 0 and hex = edims_of_tok a.(1) and others = vlrs_of_tok a.(2) and eb_last = bool_of_tok a.(3) in
+    let gr = zi 4 and rex = edims_of_tok a.(5) in
+    let size = int_of_string a.(6) in
+    let recs = if size <= 0 then [] else chunk size (bytes_of_tok a.(7)) in
+    if not (gate gh hex gr rex) then "refused by-name=" ^ tok_of_bool (gate_by_name gh hex gr rex)
+    else (match pair_up gh hex others eb_last gr rex recs with
+      | Err e -> "err:" ^ err_name e
+      | Ok s ->
+        (match write_state s with
+         | Err e -> "err:" ^ err_name e
+         | Ok w ->
+           (match read_state w with
+            | Err e -> "err:" ^ err_name e
+            | Ok st ->
+              let fields = List.map (fun d ->
+                  let vals = List.concat_map (fun r -> match field_of d.ed_name r with Some b -> b | None -> []) st.st_recs in
+                  tok_of_bytes d.ed_name ^ ":" ^ tok_of_bytes vals) st.st_extras in
+              String.concat " " ["ok"; tok_of_vlrs w.w_vlrs0; tok_of_edims st.st_extras;
+                                 tok_of_bytes (List.concat_map rec_bytes st.st_recs);
+                                 (if fields = [] then "-" else String.concat "," fields)])))
   | _ -> "unknown-command " ^ cmd
 
 let () =
